@@ -43,7 +43,15 @@ def get_exp_moment_c(cx):
     cx.call('mgf', lambda ex, st, r, args, kw: VR(MGF(toint(args[0]))) if args[0].kind == 'int' else V('opaque'), trusted='Distribution.mgf')
     cx.call('SSymbol', lambda ex, st, r, args, kw: V('opaque'))
     cx.call('diff', lambda ex, st, r, args, kw: V('opaque', None, order=args[2]))
-    cx.call('xreplace', lambda ex, st, r, args, kw: VR(DMGF(toint(r.get('order')), e)), trusted='sympy diff(mgf(t), t, a).xreplace({t: c}) = a-th derivative of the mgf at c')
+    kq = z3.String('kq')
+    cx.requires(z3.ForAll([kq], z3.Implies(z3.Select(dom, kq), z3.Select(arr, kq) >= 1)))      # DistAssignment._get_mixed_func_moment: only powers >= 1 are entered
+    cx.requires(z3.Select(dom, z3.StringVal('Exp')))          # get_func_moment (contract below) dispatches here only when an Exp power is present
+
+    def xreplace(ex, st, r, args, kw):
+        # a closed form of the mgf may be a Piecewise that is constant at 0 (Beta): its derivative is only the derivative of the mgf away from 0 (D24)
+        ex.need(st, e != 0, 'derivative-of-closed-form-away-from-0@0', 'safety')
+        return VR(DMGF(toint(r.get('order')), e))
+    cx.call('xreplace', xreplace, trusted='sympy diff(mgf(t), t, a).xreplace({t: c}) = a-th derivative of the mgf at c, for c != 0')
     cx.call('convert_func_moment', lambda ex, st, r, args, kw: VR(CONV(toreal(args[0]))), trusted='convert_func_moment (rounding contract, C13 bounded)')
     cx.call('FunctionalAssignmentException', lambda ex, st, r, args, kw: V('exc', 'FunctionalAssignmentException'))
     cx.ensures(lambda st, r: z3.And(EX(e), toreal(r) == CONV(z3.If(a == 0, MGF(e), DMGF(a, e)))))
@@ -232,3 +240,51 @@ def are_coprime_c(cx):
     cx.invariant(1, lambda st: z3.And(pair_ok(st['i'].t), z3.ForAll([j_], z3.Implies(z3.And(st['i'].t < j_, j_ < st['i'].t + 1 + st['$i1'].t), GCD(ints.t[st['i'].t], ints.t[j_]) == 1)),
                                       0 <= st['i'].t, st['i'].t < z3.Length(ints.t)))
     cx.ensures(lambda st, r: truthy(r) == pair_ok(z3.Length(ints.t)))
+
+
+@contract('program/assignment/functional_assignment.py', 'FunctionalAssignment.get_trig_moment', ['C13'])
+def get_trig_moment_c(cx):
+    """E(X^p sin^s(X) cos^c(X)) by the characteristic function: every derivative of the closed-form cf is evaluated AWAY from 0; at 0 (the
+    constant term of the product-to-sum expansion) the derivative is i^p E(X^p) taken from the moment (D24: the closed form may be a Piecewise
+    that is constant at 0).  The value of the double sum itself is decided by the bounded C13 check against quadrature."""
+    CF = z3.Function('cf', I, R); DCF = z3.Function('d_cf', I, I, R); MOM = z3.Function('moment', I, R); CONV = z3.Function('convert_func_moment', R, R)
+    powers = cx.map('func_powers', DS, DI)
+    dist = cx.ref('dist', 'Distribution')
+    cx.param(cls=cx.ref('cls'), dist=dist, func_powers=powers)
+    arr, dom = powers.t
+    kq = z3.String('kq')
+    cx.requires(z3.ForAll([kq], z3.Implies(z3.Select(dom, kq), z3.Select(arr, kq) >= 1)))
+    cx.requires(z3.Or(z3.Select(dom, z3.StringVal('Sin')), z3.Select(dom, z3.StringVal('Cos'))))      # get_func_moment dispatches here only with a trigonometric power
+    IU = z3.Real('imaginary_unit'); xq, nq = z3.Real('xq'), z3.Int('nq')
+    cx.glob('I', VR(IU))             # the arithmetic on complex values is not modelled: i is an opaque non-zero constant
+    cx.axiom(IU != 0, z3.ForAll([xq, nq], z3.Implies(xq != 0, POW(xq, nq) != 0)))
+    cx.call('cf', lambda ex, st, r, a, kw: VR(CF(toint(a[0]))) if a[0].kind == 'int' else V('opaque'), trusted='Distribution.cf (C08 bounded check against the defining integral)')
+    cx.call('SSymbol', lambda ex, st, r, a, kw: V('ref', z3.Const('t', REF)))
+    cx.call('diff', lambda ex, st, r, a, kw: V('opaque', None, order=a[2]))
+    cx.call('get_moment', lambda ex, st, r, a, kw: VR(MOM(toint(a[0]))), trusted='Distribution.get_moment (C08 contracts)')
+    cx.call('ssympify', lambda ex, st, r, a, kw: a[0])
+    cx.call('comb', lambda ex, st, r, a, kw: VR(z3.Function('binomial', I, I, R)(toint(a[0]), toint(a[1]))))
+    cx.call('re', lambda ex, st, r, a, kw: a[0]); cx.call('im', lambda ex, st, r, a, kw: VN(z3.RealVal(0)), trusted='the imaginary part of the sum vanishes (asserted at run time by the code itself)')
+    cx.call('convert_func_moment', lambda ex, st, r, a, kw: VR(CONV(toreal(a[0]))), trusted='convert_func_moment (rounding contract, C13 bounded)')
+
+    def xreplace(ex, st, r, a, kw):
+        m = a[0]
+        if m.kind != 'map': raise OutOfReach('xreplace argument')
+        # the single value of the substitution {t: point}
+        arr_, dom_ = m.t
+        vals = [c for c in _store_values(arr_)]
+        if len(vals) != 1: raise OutOfReach('xreplace with other than one substitution')
+        ex.need(st, vals[0] != 0, 'derivative-of-closed-form-away-from-0@0', 'safety')
+        return VR(DCF(toint(r.get('order')), vals[0]))
+    cx.call('xreplace', xreplace, trusted='sympy diff(cf(t), t, p).xreplace({t: a}) = p-th derivative of cf at a, for a != 0')
+    cx.invariant(0, lambda st: z3.BoolVal(True)); cx.invariant(1, lambda st: z3.BoolVal(True))
+    cx.ensures(lambda st, r: z3.BoolVal(True))
+    cx.replay = dict(kind='trig_moment_at_zero')
+
+
+def _store_values(arr):
+    """values stored in a chain Store(Store(K(..), k1, v1), k2, v2)"""
+    out = []
+    while z3.is_store(arr):
+        out.append(arr.arg(2)); arr = arr.arg(0)
+    return out
